@@ -1,7 +1,9 @@
 use crate::engine::{DynModel, Report, Tier};
 
 pub mod aggx;
+pub mod fresh;
 pub mod hist;
+pub mod soak;
 pub mod tsurf;
 
 macro_rules! props {
@@ -9,7 +11,16 @@ macro_rules! props {
         $(pub mod $m;)*
         pub fn models(id: &str, tier: Tier, seed: u64) -> Option<Vec<Box<dyn DynModel>>> {
             Some(match id {
-                $($id => $m::models(tier, seed),)*
+                $($id => {
+                    let mut v = $m::models(tier, seed);
+                    // histories from the initial state of the process, for the properties that have operations there
+                    v.extend(fresh::models($id, tier, seed));
+                    if ["C01", "C02", "C09"].contains(&$id) {
+                        // long single histories: state whose capacity is counted in entries
+                        v.extend(soak::models($id, tier));
+                    }
+                    v
+                })*
                 _ => return None,
             })
         }
@@ -20,6 +31,12 @@ macro_rules! props {
             }
             if ["C01", "C04", "C08", "C09", "C10", "C11", "C12", "C13", "C15"].contains(&id) {
                 r.rule.push_str("; trait surface model: root -> one state per (family of provided trait functions, 4 keys, 5 messages (thorough 8), 3 schemes, variant), each calling the trait functions directly (not through the structs) and comparing values and verdicts with the reference model under the entropy and clock seams");
+            }
+            if ["C01", "C02", "C09"].contains(&id) {
+                r.rule.push_str("; soak: one operation kind over 1100 (thorough 4200) distinct inputs on one thread, then the early inputs again with own / other / forged counterparts");
+            }
+            if fresh::MFresh::applicable(id) {
+                r.rule.push_str("; fresh-process histories: every sequence of at most two operations (48 kinds x 2 groups: sign / verify / proofs / aggregate / shares / seal / open / decode, consumers fed with reference-made artefacts) run in its own newly started process, the last one - an operation of this property - judged against the reference value or the verdict the property fixes");
             }
             if ["C03", "C05", "C06"].contains(&id) {
                 r.rule.push_str("; collision-list model: every list of length 2..3 (thorough 4) over the pair alphabet {sk=1, sk=r-1, derived key} x {01ff, 01fe, empty}: aggregate bytes and decision against the reference (C03, C06), the same point under every other label (C05)");
@@ -52,6 +69,7 @@ pub fn child(args: &[String]) -> i32 {
     match args.first().map(|s| s.as_str()) {
         Some("c17") => c17::child(&args[1..]),
         Some("c20") => c20::child(&args[1..]),
+        Some("fresh") => fresh::child(&args[1..]),
         _ => 2,
     }
 }
